@@ -89,6 +89,14 @@ impl<const S: usize> WantlistState<S> {
             .and_modify(|state| *state = WantReqState::GotBlock);
     }
 
+    /// CID was added in the wantlist again. If this peer has already delivered its
+    /// block, forget about that, so that the CID is requested from it anew.
+    pub(crate) fn wanted_again(&mut self, cid: &CidGeneric<S>) {
+        if let Some(WantReqState::GotBlock) = self.req_state.get(cid) {
+            self.req_state.remove(cid);
+        }
+    }
+
     pub(crate) fn generate_proto_full(&mut self, wantlist: &Wantlist<S>) -> ProtoWantlist {
         // Remove canceled requests or received blocks
         self.req_state.retain(|cid, _| wantlist.cids.contains(cid));
